@@ -6,6 +6,7 @@ CONSTANTS
   MaxLen = 5
   MaxOps = 3
   Variant = "bisect"
+  Sharing = "copy"
   InitSets <- MCInitSmall
 INVARIANT EmitBehaviours
 CHECK_DEADLOCK FALSE
